@@ -1,0 +1,11 @@
+//go:build verif
+
+// Contracts for the deductive verifier in /verif (govc). This file contains comments
+// only; it is compiled only with the build tag "verif" and then adds nothing but the
+// package clause.
+
+package general
+
+//@ func DivideWithMin
+//@   ensures [*] divider == 0 ==> result == base
+//@   ensures [*] divider != 0 ==> result == max(tdiv(base, divider), min)
